@@ -4,8 +4,8 @@ CONSTANTS
   Classes <- AB
   MaxNameLen = 3
   FFE = 99
-  Mode = "hist"
-  ScenLen = 12
+  Mode = "vanish"
+  ScenLen = 9
   Mgrs = {"wallet", "dirk"}
 INVARIANTS Emit
 CHECK_DEADLOCK FALSE
